@@ -586,7 +586,14 @@ static bool gen_rename(Rng& r, const Shadow& s, Op& op)
     switch (variant)
     {
       case 0: db->setName(names[0], nn); if (absent) tg.clear(); break;
-      case 1: db->setName(VS(names), nn); break;
+      case 1:
+        // the list is resolved one name at a time AFTER the previous renamings: a later name of the list which, read as
+        // a pattern, matches the intermediate name "nn.<i>" of an earlier target designates that target again
+        for (size_t j = 1; j < names.size(); j++)
+          for (size_t i = 0; i < j; i++)
+            if (nameMatches(names[j], nn + "." + std::to_string(i + 1)) == 1) e.cls = "name-as-pattern:setName(list)";
+        db->setName(VS(names), nn);
+        break;
       case 2: db->setNameByUID(uids[0], nn); break;
       case 3: db->setNameByColIdx(cols[0], nn); break;
       case 4: db->setNameByLocator(EL(type), nn); tg = s.loc[type]; break;
